@@ -385,16 +385,19 @@ func (v *PacketDslVisitorImpl) VisitLengthFieldDeclaration(ctx *gen.LengthFieldD
 	if ctx.Type_() != nil {
 		typ = ctx.Type_().GetText()
 	}
-	if v.BinModel.MetaDataMap[name] != (model.MetaData{}) {
-		// If metadata exists, use its basic type
-		typ = v.BinModel.MetaDataMap[name].Attr.GetType()
-	} else if ctx.Type_() == nil {
-		// no type written and no MetaData entry to take it from
-		v.BinModel.AddSyntaxError(&model.SyntaxError{
-			Line:   ctx.GetStart().GetLine(),
-			Column: ctx.GetStart().GetColumn(),
-			Msg:    "Unknown MetaData type " + name + " for field " + name + " declared without a type",
-		})
+	if ctx.Type_() == nil {
+		if v.BinModel.MetaDataMap[name] != (model.MetaData{}) {
+			// no type written: the MetaData entry of that name gives it (a written type is the field's type,
+			// whatever MetaData entry happens to share the field's name)
+			typ = v.BinModel.MetaDataMap[name].Attr.GetType()
+		} else {
+			// no type written and no MetaData entry to take it from
+			v.BinModel.AddSyntaxError(&model.SyntaxError{
+				Line:   ctx.GetStart().GetLine(),
+				Column: ctx.GetStart().GetColumn(),
+				Msg:    "Unknown MetaData type " + name + " for field " + name + " declared without a type",
+			})
+		}
 	}
 	return &model.Field{
 		Name:     name,
@@ -420,16 +423,19 @@ func (v *PacketDslVisitorImpl) VisitCheckSumFieldDeclaration(ctx *gen.CheckSumFi
 	if ctx.Type_() != nil {
 		typ = ctx.Type_().GetText()
 	}
-	if v.BinModel.MetaDataMap[name] != (model.MetaData{}) {
-		// If metadata exists, use its basic type
-		typ = v.BinModel.MetaDataMap[name].Attr.GetType()
-	} else if ctx.Type_() == nil {
-		// no type written and no MetaData entry to take it from
-		v.BinModel.AddSyntaxError(&model.SyntaxError{
-			Line:   ctx.GetStart().GetLine(),
-			Column: ctx.GetStart().GetColumn(),
-			Msg:    "Unknown MetaData type " + name + " for field " + name + " declared without a type",
-		})
+	if ctx.Type_() == nil {
+		if v.BinModel.MetaDataMap[name] != (model.MetaData{}) {
+			// no type written: the MetaData entry of that name gives it (a written type is the field's type,
+			// whatever MetaData entry happens to share the field's name)
+			typ = v.BinModel.MetaDataMap[name].Attr.GetType()
+		} else {
+			// no type written and no MetaData entry to take it from
+			v.BinModel.AddSyntaxError(&model.SyntaxError{
+				Line:   ctx.GetStart().GetLine(),
+				Column: ctx.GetStart().GetColumn(),
+				Msg:    "Unknown MetaData type " + name + " for field " + name + " declared without a type",
+			})
+		}
 	}
 	return &model.Field{
 		Name:     ctx.GetName().GetText(),
